@@ -197,6 +197,33 @@ fn battery(g: &Gen, node: &Node, direct: &mut Vec<String>, reads: &mut u64) -> B
             }
         }
     }
+    // the included-uncle index (COLUMN_UNCLES is written by attach_block and deleted by detach_block):
+    // get_uncle_header answers for exactly the uncles embedded in main-chain blocks, twice, alternately
+    // through the store and the snapshot
+    {
+        let mut embedded: std::collections::HashSet<Byte32> = std::collections::HashSet::new();
+        for n in 0..=snap.tip_number() {
+            if let Some(b) = snap.get_block_hash(n).and_then(|h| snap.get_block(&h)) {
+                for u in b.uncles().into_iter() { embedded.insert(u.hash()); }
+            }
+        }
+        let mut seen: std::collections::HashSet<Byte32> = std::collections::HashSet::new();
+        let mut k = 0u64;
+        for id in 1..=g.blocks.len() as u64 {
+            for u in g.block_by_id(id).uncles().into_iter() {
+                if !seen.insert(u.hash()) { continue; }
+                k += 1;
+                for round in 0..2 {
+                    *reads += 1;
+                    let got = if (k + round) % 2 == 0 { store.get_uncle_header(&u.hash()) } else { snap.get_uncle_header(&u.hash()) };
+                    d.insert(format!("uncle{k}.r{round}"), format!("{:?}", got.as_ref().map(|h| hex(h.hash().as_slice()))));
+                    if got.is_some() != embedded.contains(&u.hash()) {
+                        direct.push(format!("get_uncle_header answers {} for an uncle that is {}embedded in a main-chain block", if got.is_some() { "Some" } else { "None" }, if embedded.contains(&u.hash()) { "" } else { "not " }));
+                    }
+                }
+            }
+        }
+    }
     for (i, tx) in g.txs.iter().enumerate() {
         let info = store.get_transaction_info(&tx.hash());
         d.insert(format!("t{}.info", i + 1), format!("{:?}", info.map(|x| (g.block_id.get(&x.block_hash).cloned(), x.index, x.block_number))));
